@@ -33,6 +33,7 @@
 use crate::util::*;
 use rssl::ir;
 
+mod decl;
 mod ext;
 use rssl::ir::ScalarType;
 use rssl::typer::verif::ImplicitConversion;
@@ -2111,6 +2112,7 @@ pub fn run(args: &Args, out: &mut Out) {
                     _ => out.case(&line, "-", "SKIP:bad request"),
                 },
                 ["C03.src", src] => r.src_case(src, out),
+                ["C03.decl", rest @ ..] => r.decl_case(rest, out),
                 ["C03.progx", others, vars, funcs, ret, body, expect] => match (ext::parse_envx(others, vars, funcs, ret), parse_sx(body)) {
                     (Some(env), Some(body)) => r.progx_case(&env, &body, expect, out),
                     _ => out.case(&line, "-", "SKIP:bad request"),
@@ -2334,6 +2336,9 @@ pub fn run(args: &Args, out: &mut Out) {
 
     // (5) the extended language: swizzles, members, subscripts, constructors, intrinsic functions
     ext::run_ext(&mut r, &mut rng, args, out);
+
+    // (6) declared types: typedef chains / template parameters carrying modifiers x use-site modifiers x storage x writes
+    decl::run_decl(&mut r, &mut rng, args.thorough(), if args.thorough() { 30000 } else { 3000 }, out);
 
     out.stat(&format!(
         "{{\"conv_universe\":{},\"conv_pairs\":{},\"random_statements\":{},\"compiles\":{},\"ir_nodes_walked\":{},\"hist\":{}}}",
